@@ -747,6 +747,7 @@ func (ev *selEval) joinRows(s *SelSource, left, right *selRel, outer *selScope) 
 		outCols = merged
 	}
 	sc := &selScope{cols: merged, id: ev.newID(), parent: outer}
+	buf := make([]val.Val, nl+nr)
 	match := func(l, r []val.Val) (bool, error) {
 		if usingJoin {
 			for i := range li {
@@ -759,10 +760,9 @@ func (ev *selEval) joinRows(s *SelSource, left, right *selRel, outer *selScope) 
 		if s.JoinType == "CROSS" || s.On == nil {
 			return true, nil
 		}
-		row := make([]val.Val, 0, nl+nr)
-		row = append(row, l...)
-		row = append(row, r...)
-		sc.row = row
+		copy(buf, l)
+		copy(buf[nl:], r)
+		sc.row = buf
 		t, err := ev.tern(s.On, sc)
 		return t == T, err
 	}
